@@ -28,7 +28,9 @@ type Obs struct {
 	events   []Event
 	last     time.Time
 	waiting  []*waiter
-	active   int // bodies that logged start and not yet end
+	exiting  []*waiter // bodies that logged their end and wait to leave together
+	Burst    bool      // hold bodies after their end event and let them go all at once
+	active   int       // bodies that logged start and not yet end
 	Gated    bool
 	Quiet    time.Duration
 	rng      *rand.Rand
@@ -66,13 +68,25 @@ func (o *Obs) EmitStart(e Event, name string) {
 	<-w.ch
 }
 
-// EmitEnd logs an end event and counts the body as finished.
+// EmitEnd logs an end event and counts the body as finished.  In burst mode the
+// body then waits on the exit gate: the controller lets all bodies that have
+// logged their end leave at the same moment, so that the engine code behind
+// the bodies (result map, error list, WaitGroup) runs with maximal overlap.
+// The logged end is never later than the real end, so no barrier that the
+// code respects can appear broken in the log.
 func (o *Obs) EmitEnd(e Event) {
 	o.mu.Lock()
 	o.events = append(o.events, e)
 	o.last = time.Now()
 	o.active--
+	if !(o.Gated && o.Burst) {
+		o.mu.Unlock()
+		return
+	}
+	w := &waiter{ch: make(chan struct{})}
+	o.exiting = append(o.exiting, w)
 	o.mu.Unlock()
+	<-w.ch
 }
 
 // Hold blocks the caller on a gate without logging start/end bookkeeping.
@@ -105,16 +119,27 @@ func (o *Obs) StartController() {
 			o.mu.Lock()
 			quiet := time.Since(o.last) >= o.Quiet
 			var w *waiter
+			var burst []*waiter
 			if quiet && len(o.waiting) > 0 {
 				i := o.rng.Intn(len(o.waiting))
 				w = o.waiting[i]
 				o.waiting = append(o.waiting[:i], o.waiting[i+1:]...)
 				o.last = time.Now()
 				o.released++
+			} else if quiet && len(o.exiting) > 0 {
+				burst = o.exiting
+				o.exiting = nil
+				o.last = time.Now()
 			}
 			o.mu.Unlock()
 			if w != nil {
 				close(w.ch)
+				continue
+			}
+			if burst != nil {
+				for _, x := range burst {
+					close(x.ch)
+				}
 				continue
 			}
 			time.Sleep(o.Quiet / 4)
@@ -134,8 +159,9 @@ func (o *Obs) StopController() {
 
 func (o *Obs) ReleaseAll() {
 	o.mu.Lock()
-	ws := o.waiting
+	ws := append(o.waiting, o.exiting...)
 	o.waiting = nil
+	o.exiting = nil
 	o.mu.Unlock()
 	for _, w := range ws {
 		close(w.ch)
@@ -158,6 +184,21 @@ func (o *Obs) Drain(timeout time.Duration) bool {
 			return false
 		}
 		time.Sleep(200 * time.Microsecond)
+	}
+}
+
+// Settle opens all gates until the log has been quiet for d (used where the
+// number of active bodies is not tracked).
+func (o *Obs) Settle(d time.Duration) {
+	for {
+		o.ReleaseAll()
+		o.mu.Lock()
+		q := time.Since(o.last) >= d && len(o.waiting) == 0 && len(o.exiting) == 0
+		o.mu.Unlock()
+		if q {
+			return
+		}
+		time.Sleep(d / 4)
 	}
 }
 
